@@ -16,13 +16,13 @@ func jsonMarshal(v any) ([]byte, error)    { return json.Marshal(v) }
 // See /verif/DESIGN.md section 3.
 var properties = map[string]*Property{
 	"C01": {
-		Rules:      []string{"R-HINT", "R-CTXTYPE", "R-TABLES", "R-CTX-MIRROR", "R-NAMECMP", "R-CTX-KEYS", "R-LIFECYCLE", "R-MODE-ORDER", "R-PAYLOAD-MIRROR", "R-CHUNK-STATE", "R-FIELD-WIDTH"},
-		Decided:    "the advisory size hint cannot steer which data is encoded (non-interference: hint-derived values reach no branch, loop bound, index or slice bound of the Writer data path); every context key is stored with the type every consumer asserts (no configuration accepted at construction can fail a type assertion at the first block); every codec name accepted at construction has a constructor case in every factory. Encode and decode tasks publish the same context keys (block size for the transform stage, post-transform size for the entropy stage) before creating their codecs. Every context key a codec constructor consults is published on the writing side and on both reading sides, so both build the same codec variant; an empty input still produces a framed stream (header before the empty-buffer return). In the block tasks the codecs are built from the task's transform/entropy type only after its last assignment.",
+		Rules:      []string{"R-HINT", "R-CTXTYPE", "R-TABLES", "R-CTX-MIRROR", "R-NAMECMP", "R-CTX-KEYS", "R-LIFECYCLE", "R-MODE-ORDER", "R-PAYLOAD-MIRROR", "R-CHUNK-STATE", "R-FIELD-WIDTH", "R-EMIT-EXACT", "R-HDR-MIRROR"},
+		Decided:    "the advisory size hint cannot steer which data is encoded (non-interference: hint-derived values reach no branch, loop bound, index or slice bound of the Writer data path); every context key is stored with the type every consumer asserts (no configuration accepted at construction can fail a type assertion at the first block); every codec name accepted at construction has a constructor case in every factory. Encode and decode tasks publish the same context keys (block size for the transform stage, post-transform size for the entropy stage) before creating their codecs. Every context key a codec constructor consults is published on the writing side and on both reading sides, so both build the same codec variant; an empty input still produces a framed stream (header before the empty-buffer return). In the block tasks the codecs are built from the task's transform/entropy type only after its last assignment. The size-hint header field fits the width it is written with for every value of the hint (interval argument over the tests that choose the width). The encode task emits exactly the bit count its private bitstream reports. The headerless initialisation of the Reader fills every field that the header parser fills and the read path uses.",
 		NotDecided: "byte equality of the round trip, codec correctness, buffer sizing, expansion bounds.",
 	},
 	"C02": {
-		Rules:      []string{"R-CKSUM", "R-ERRSTATE", "R-CANCEL"},
-		Decided:    "on decode the block hash is recomputed on the inverse-transformed data, compared un-narrowed with the header value and a mismatch always sets the task error (must-pass-through on every clean exit after Inverse); on encode the hash of the original block is computed before the transform and is the value written with the hasher's width; a failed batch publishes 0 bytes, so no later Read can deliver its data. A task that fails for any reason, including a checksum mismatch found after the block was decoded, cancels the stream, so no later Read resumes behind the failed block.",
+		Rules:      []string{"R-CKSUM", "R-ERRSTATE", "R-CANCEL", "R-SKIP-RANGE"},
+		Decided:    "on decode the block hash is recomputed on the inverse-transformed data, compared un-narrowed with the header value and a mismatch always sets the task error (must-pass-through on every clean exit after Inverse); on encode the hash of the original block is computed before the transform and is the value written with the hasher's width; a failed batch publishes 0 bytes, so no later Read can deliver its data. A task that fails for any reason, including a checksum mismatch found after the block was decoded, cancels the stream, so no later Read resumes behind the failed block. A block is marked as skipped (dropped from the output without its checksum being looked at) only behind a comparison of its id with the from/to bounds.",
 		NotDecided: "hash collision freedom; that returned bytes equal the original.",
 	},
 	"C03": {
@@ -31,8 +31,8 @@ var properties = map[string]*Property{
 		NotDecided: "termination within a time bound; implicit runtime panics (index/nil) raised in the calling goroutine outside a recovering frame.",
 	},
 	"C04": {
-		Rules:      []string{"R-NONDET", "R-JOBS-INERT", "R-TOKEN", "R-OWN", "R-HASH-PURE", "R-HINT", "R-BLOCK-BOUND", "R-JOBS-WIRE", "R-WRITE-PARTITION"},
-		Decided:    "no nondeterministic API is reachable from the encode path; the per-task job count is unobservable in the forward direction; bytes are appended to the shared stream only while holding the hand-off token; tasks share no mutable state outside the protocol; the size hint does not steer the data path. The encode task reads its reused input slot only within the current block length. In the Writer the job count reaches no field that the header writer puts on the wire and decides no branch or loop around their assignment (block size and header fields are independent of the job count). Write only measures and copies the caller's slice (nothing else can make the output depend on the Write partition); header fields are assigned in the constructor only.",
+		Rules:      []string{"R-NONDET", "R-JOBS-INERT", "R-TOKEN", "R-OWN", "R-HASH-PURE", "R-HINT", "R-BLOCK-BOUND", "R-JOBS-WIRE", "R-WRITE-PARTITION", "R-EMIT-EXACT"},
+		Decided:    "no nondeterministic API is reachable from the encode path; the per-task job count is unobservable in the forward direction; bytes are appended to the shared stream only while holding the hand-off token; tasks share no mutable state outside the protocol; the size hint does not steer the data path. The encode task reads its reused input slot only within the current block length. In the Writer the job count reaches no field that the header writer puts on the wire and decides no branch or loop around their assignment (block size and header fields are independent of the job count). Write only measures and copies the caller's slice (nothing else can make the output depend on the Write partition); header fields are assigned in the constructor only. The bit count copied to the shared stream is exactly what the private bitstream reports (no padding bits taken from a reused buffer).",
 		NotDecided: "independence from the partition into Write calls (index arithmetic in Writer.Write).",
 	},
 	"C05": {
@@ -66,13 +66,13 @@ var properties = map[string]*Property{
 		NotDecided: "algorithmic changes that keep every constant; tables computed at init; encoder-only changes.",
 	},
 	"C11": {
-		Rules:      []string{"R-SKIP-ORDER", "R-SKIP-RANGE", "R-ERRSTATE", "R-COMPACT", "R-BATCH-ONLY", "R-OWN"},
-		Decided:    "skipped blocks consume their bytes and pass the token before the range test, are never decoded nor delivered; block ids are compared with from/to as the half-open interval [from,to); all-skipped batches are refilled. The slot cursor of the result compaction advances only for non-skipped blocks. The range bounds reach the skip test un-narrowed (also when carried in task fields); the batch function never concludes 'past the end' from header counts. Only tasks advance or cancel the shared block counter (a parent-side fast path over skipped blocks must not).",
+		Rules:      []string{"R-SKIP-ORDER", "R-SKIP-RANGE", "R-ERRSTATE", "R-COMPACT", "R-BATCH-ONLY", "R-OWN", "R-BUF-FRESH", "R-APP-CTX"},
+		Decided:    "skipped blocks consume their bytes and pass the token before the range test, are never decoded nor delivered; block ids are compared with from/to as the half-open interval [from,to); all-skipped batches are refilled. The slot cursor of the result compaction advances only for non-skipped blocks. The range bounds reach the skip test un-narrowed (also when carried in task fields); the batch function never concludes 'past the end' from header counts. Only tasks advance or cancel the shared block counter (a parent-side fast path over skipped blocks must not). A compacted buffer slot never aliases a task buffer. The command-line tool gives every per-file task a context that carries the options of its option map (from/to included).",
 		NotDecided: "mapping of block k to byte offsets; cursor compaction arithmetic.",
 	},
 	"C12": {
-		Rules:      []string{"R-FACTORY-PAIR", "R-WIRE", "R-PAYLOAD-MIRROR", "R-CHUNK-STATE", "R-SORT-TIES"},
-		Decided:    "for each entropy code the encoder and decoder factories build the same codec family with the same constant arguments and the same predictor constructor; shared constants of the entropy package keep their format-6 values. For the static-model codecs (Huffman, ANS, Range) encoder and decoder agree, for every number of symbols and order, on whether a chunk carries payload bits after its statistics header (finite decision table compared on both sides). Encoder and decoder carry the same coder state (values derived from receiver fields) across the chunk loop: what one side re-initialises per chunk the other does too. No unstable library sort with a single-key order function in codec code.",
+		Rules:      []string{"R-FACTORY-PAIR", "R-WIRE", "R-PAYLOAD-MIRROR", "R-CHUNK-STATE", "R-SORT-TIES", "R-CHUNK-LEN"},
+		Decided:    "for each entropy code the encoder and decoder factories build the same codec family with the same constant arguments and the same predictor constructor; shared constants of the entropy package keep their format-6 values. For the static-model codecs (Huffman, ANS, Range) encoder and decoder agree, for every number of symbols and order, on whether a chunk carries payload bits after its statistics header (finite decision table compared on both sides). Encoder and decoder carry the same coder state (values derived from receiver fields) across the chunk loop: what one side re-initialises per chunk the other does too. No unstable library sort with a single-key order function in codec code. Chunk lengths that encoder and decoder each recompute from the block length are given by the same expressions on both sides.",
 		NotDecided: "arithmetic-coder exactness, bit-exact consumption.",
 	},
 	"C13": {
@@ -81,14 +81,14 @@ var properties = map[string]*Property{
 		NotDecided: "in-bounds output and inverse exactness (numeric).",
 	},
 	"C14": {
-		Rules:      []string{"R-BS-CLOSED", "R-BITCOUNT", "R-REFILL"},
-		Decided:    "closed bitstreams refuse further operations (Close stores the closed state; every operation that touches the buffer tests it first). Counter clause, by an affine-equality analysis of the methods: the value returned by Written()/Read() advances by exactly the bit count of WriteBits, WriteArray, ReadBit and ReadBits and these return that count; flush, refill, HasMoreToRead and both Close methods conserve it at every return; a failed Close of the writer restores every integer field. The reader refills completely (a partial 64-bit word only at the end of the source), which the bulk read paths rely on.",
+		Rules:      []string{"R-BS-CLOSED", "R-BITCOUNT", "R-REFILL", "R-REFUSE-CLEAN"},
+		Decided:    "closed bitstreams refuse further operations (Close stores the closed state; every operation that touches the buffer tests it first). Counter clause, by an affine-equality analysis of the methods: the value returned by Written()/Read() advances by exactly the bit count of WriteBits, WriteArray, ReadBit and ReadBits and these return that count; flush, refill, HasMoreToRead and both Close methods conserve it at every return; a failed Close of the writer restores every integer field. The reader refills completely (a partial 64-bit word only at the end of the source), which the bulk read paths rely on. An operation refused by a closed stream has not stored any field the counter is computed from before the closed state is tested.",
 		NotDecided: "the values read back and the byte image (bit arithmetic); the counter clause for WriteBit and ReadArray (they depend on inequality invariants the affine domain cannot express); guards are ignored, so a wrong loop bound is not seen.",
 		Assumptions: []string{"integer arithmetic in the bitstreams does not wrap", "a signed residual counter tested against 0 is never negative (A4)", "a unit-step counting loop exits exactly at its bound (A5)"},
 	},
 	"C15": {
-		Rules:      []string{"R-TABLES", "R-NAMECMP", "R-LEVELS", "R-CHAIN-PACK", "R-NAMESET", "R-CTX-KEYS"},
-		Decided:    "name->type->name is the identity on canonical names and upper-cases before lookup; every type maps to a constructor in every factory; no codec variant is selected by a case-sensitive comparison of the user's spelling. In GetType the slot of a token in the packed chain advances only for non-NONE tokens (NONE fillers are removed). The names a codec variant is selected from (ctx transform/entropy) are published on every side.",
+		Rules:      []string{"R-TABLES", "R-NAMECMP", "R-LEVELS", "R-CHAIN-PACK", "R-NAMESET", "R-CTX-KEYS", "R-NAME-NORM"},
+		Decided:    "name->type->name is the identity on canonical names and upper-cases before lookup; every type maps to a constructor in every factory; no codec variant is selected by a case-sensitive comparison of the user's spelling. In GetType the slot of a token in the packed chain advances only for non-NONE tokens (NONE fillers are removed). The names a codec variant is selected from (ctx transform/entropy) are published on every side. Beyond case folding, the name->type lookups normalise a name no more than every variant selector does; the type->name direction is also understood as a reverse scan of the name table.",
 		NotDecided: "removal of NONE fillers (loop in GetType); stream byte equality.",
 	},
 	"C17": {
@@ -102,8 +102,8 @@ var properties = map[string]*Property{
 		NotDecided: "disjointness of dst ranges of BWT workers (arithmetic); user listeners.",
 	},
 	"C19": {
-		Rules:      []string{"R-EXCL", "R-FS-WHO", "R-REMOVE-ORDER", "R-LEVELS", "R-CLI-REC", "R-IOERR", "R-APP-OWN"},
-		Decided:    "never overwrite without force (O_EXCL unless overwrite edge), same-file test before truncation, no other file-system mutation in the module, source removed only after complete error-free close (dominance, hence at every kill point), level table well-formed. The tool looks at the error of every Read/Write/Close it issues on the compressed stream and on the files, on every path (an error cannot be overwritten before it is tested). Per-file tasks queued for concurrent workers share no slice that a task writes into.",
+		Rules:      []string{"R-EXCL", "R-FS-WHO", "R-REMOVE-ORDER", "R-LEVELS", "R-CLI-REC", "R-IOERR", "R-APP-OWN", "R-APP-CTX"},
+		Decided:    "never overwrite without force (O_EXCL unless overwrite edge), same-file test before truncation, no other file-system mutation in the module, source removed only after complete error-free close (dominance, hence at every kill point), level table well-formed. The tool looks at the error of every Read/Write/Close it issues on the compressed stream and on the files, on every path (an error cannot be overwritten before it is tested). Per-file tasks queued for concurrent workers share no slice that a task writes into. Every per-file task context carries the options of the tool's option map.",
 		NotDecided: "tree round trip, exit statuses.",
 	},
 }
